@@ -22,6 +22,11 @@ Inductive exn :=
 
 Inductive outcome := OVal (v : pyval) | OExn (e : exn) | OInt.   (* OInt: a non-Exception BaseException *)
 
+(** what [raise <type>()] in service code raises: service code may itself raise a framework-typed exception
+    (e.g. NoSuchRecording out of a cassette lookup made by an intercepted function) *)
+Definition exn_of_name (ty : str) : exn :=
+  if str_eqb ty (U"NoSuchRecording") then ENoSuchRecording else EUser ty.
+
 (** data handlers (playback/interception/*.py): functions of (value, full positional args, kwargs);
     None = the handler raises *)
 Record ihandler := {
